@@ -46,6 +46,7 @@ func (r *RunnerManager) Add(runner ...Runner) error {
 	if r.running.Load() {
 		return ErrManagerAlreadyStarted
 	}
+	verifPoint("runner.add.checked")
 	r.lock.Lock()
 	defer r.lock.Unlock()
 	r.runners = append(r.runners, runner...)
